@@ -156,6 +156,15 @@ def check_header(rep, prog):
             got_c = "<raises %s>" % type(e).__name__
         if got_c != want_c and bad is None:
             bad = "component field %r is shown as %r, expected %r" % (fld, got_c, want_c)
+        # ... and whatever the component is called, 32 readable bytes are a header
+        try:
+            got_r = bool(evaluate(r, {DATA: hdr, Op("len", DATA): len(hdr)}))
+        except CannotEval as e:
+            raise AnalysisError("header read result not evaluable: %s" % e)
+        except UnicodeError as e:
+            got_r = "<raises %s>" % type(e).__name__
+        if got_r is not True and bad is None:
+            bad = "a 32-byte header whose component field is %r is not accepted (read() gives %r): the buffer is hex-dumped instead of decoded" % (fld, got_r)
     rep.check(bad is None and okc, rule, "32-byte header: ver@0 hdr_len@1 time_flg@2 endian@3 comp@4/12 size@20 times_wrap@24 next_free@28; False if <32 bytes",
               "TraceBufferHeader.read", "read", bad or "component name is not taken from bytes[4:16]: %r" % (comp,))
 
@@ -484,5 +493,7 @@ def run(rep, prog, thorough):
     check_buffer_loop(rep, prog)
     check_strings(rep, prog)
     check_rendering(rep, prog)
+    from ..effects import check_text_decoding
+    check_text_decoding(rep, prog, "C15.R5.string-lookup", "io_drawer.trace", "the trace string file")
     from ..effects import check_no_memoised
     check_no_memoised(rep, prog, 'C15.R5.string-lookup', ['io_drawer'], 'the trace strings of an earlier decode are reused although the string file given now may differ')
